@@ -34,7 +34,7 @@ var wgSpecs = map[string]*wgSpec{
 			"4 times and through the verif hook under all permutations of the DFS start order (<= 5 non-terminal nodes) or 2+16 sampled ones; every accepted build is " +
 			"compared node by node and edge by edge with specification weights computed on an independent reference graph (SCC condensation), plus local invariants " +
 			"(edge = target +1 on a hop, no R# placeholder, no empty map). Non-trivial = the library accepted the model and it has a tuple cycle or an intersection/exclusion " +
-			"and some finite weight >= 2; distinct by model content.",
+			"and some finite weight >= 2; distinct by model content. Bounded exhaustive part: a small universe (user; doc with p:[doc] and relations a, b each defined by one of 8 leaf forms or a binary operator over two of them: 200 x 200 = 40 000 models) under ALL DFS start orders; quick enumerates every 16th model, thorough the complete universe split over the 16 processes.",
 		aspects: map[string]bool{"weights": true},
 		opts:    gen.GraphOpts{MultiThis: true, DupRestr: true},
 		maxExh:  5, nRand: 16, builds: 4,
@@ -59,7 +59,7 @@ var wgSpecs = map[string]*wgSpec{
 			"(TTU on a relation without restrictions / undefined / parent type lacking the relation, undefined computed relation); verdict of the real Build x4 and of " +
 			"every hook-enumerated DFS start order (all permutations for <= 6 non-terminal nodes, else 2+24 sampled) compared with an independent well-foundedness " +
 			"predicate (tuple-free cycle by SCC over non-hop edges, operator on a cycle, TTU preconditions, empty intersection, no terminal type, exit-less cycle); error " +
-			"must wrap one of the three sentinel errors. Non-trivial = the model has at least one cycle of any kind; distinct by model content.",
+			"must wrap one of the three sentinel errors. Non-trivial = the model has at least one cycle of any kind; distinct by model content. Bounded exhaustive part: a small universe (user; doc with p:[doc] and relations a, b each defined by one of 8 leaf forms or a binary operator over two of them: 200 x 200 = 40 000 models) under ALL DFS start orders; quick enumerates every 16th model, thorough the complete universe split over the 16 processes.",
 		aspects: map[string]bool{"verdict": true},
 		opts:    gen.GraphOpts{MultiThis: true, Hazards: true, CycleBoost: true},
 		maxExh:  6, nRand: 24, builds: 6,
@@ -73,7 +73,7 @@ var wgSpecs = map[string]*wgSpec{
 		rule: "rapid-generated models of the graph profile with duplicated / mixed conditioned restrictions, repeated operands and several direct assignments; " +
 			"the library graph (real Build and hook-built unweighted graph) is matched against a reference graph built from the model: node multiset by kind and label " +
 			"(operators by structural path), per node the ORDERED edge list with kind, target, 'type#tupleset' label and ordered condition list; nothing extra; model " +
-			"unchanged (proto.Equal with a clone). Non-trivial = accepted model with an operator and a de-duplicated edge or a multi-parent TTU; distinct by model content.",
+			"unchanged (proto.Equal with a clone). Non-trivial = accepted model with an operator and a de-duplicated edge or a multi-parent TTU; distinct by model content. Bounded exhaustive part: a small universe (user; doc with p:[doc] and relations a, b each defined by one of 8 leaf forms or a binary operator over two of them: 200 x 200 = 40 000 models) under ALL DFS start orders; quick enumerates every 16th model, thorough the complete universe split over the 16 processes.",
 		aspects: map[string]bool{"structure": true, "purity": true},
 		opts:    gen.GraphOpts{MultiThis: true, DupRestr: true},
 		maxExh:  3, nRand: 1, builds: 2,
@@ -87,7 +87,7 @@ var wgSpecs = map[string]*wgSpec{
 		rule: "rapid-generated models of the graph profile with p(wildcard restriction) raised to ~0.4, wildcards inside and behind tuple cycles and under " +
 			"intersections/exclusions; node and edge wildcard lists of every accepted build (real Build x4 and hook-enumerated DFS start orders) compared as sets with plain " +
 			"reachability of T:* nodes in an independent reference graph; no duplicates. Non-trivial = accepted model with >= 2 wildcard restrictions and a tuple cycle; " +
-			"distinct by model content.",
+			"distinct by model content. Bounded exhaustive part: a small universe (user; doc with p:[doc] and relations a, b each defined by one of 8 leaf forms or a binary operator over two of them: 200 x 200 = 40 000 models) under ALL DFS start orders; quick enumerates every 16th model, thorough the complete universe split over the 16 processes.",
 		aspects: map[string]bool{"wildcards": true},
 		opts:    gen.GraphOpts{MultiThis: true, WildBoost: true},
 		maxExh:  5, nRand: 16, builds: 4,
@@ -141,6 +141,38 @@ func wgRun(t *testing.T, sp *wgSpec) {
 	}
 	for c, f := range sp.require {
 		rec.Require(c, f)
+	}
+	// bounded exhaustive part: the small universe (see wgSmallModel) under ALL depth-first start orders.
+	// quick: every 16th model of this process's share; thorough: the complete universe, split over the shards.
+	{
+		defs := smallDefs()
+		total := len(defs) * len(defs)
+		stride := 16
+		if ev.Thorough() {
+			stride = 1
+		}
+		var n, orders, accepted int64
+		for idx := ev.Shard() + int(ev.Seed()%int64(stride))*ev.Shards(); idx < total; idx += ev.Shards() * stride {
+			m := wgSmallModel(defs, idx)
+			in := wgInput{Model: m}
+			if g0 := refBuildOnly(m); g0.Err == "" {
+				in.Orders = permutations(wgNonTerminal(g0), 1000)
+			}
+			res := wgEvaluate(in, wgOpts{RealBuilds: 2})
+			n++
+			orders += int64(res.Orders)
+			if res.Accepted {
+				accepted++
+			}
+			if msg := wgReport(rec, sp, in, res); msg != "" {
+				t.Fatalf("small universe model #%d: %s\n%s", idx, msg, m.String())
+			}
+		}
+		rec.Bulk(n, n, map[string]int64{"small-universe:models": n, "small-universe:ordered-builds": orders, "small-universe:accepted": accepted})
+		rec.Note("small universe: %d of %d models (stride %d) under all DFS start orders (%d ordered builds)", n, total, stride, orders)
+		if ev.Thorough() {
+			rec.Note("thorough tier: the 16 processes together enumerate the complete small universe (%d models)", total)
+		}
 	}
 	rapid.Check(t, func(rt *rapid.T) {
 		opts := sp.opts
